@@ -261,6 +261,8 @@ pub enum Op {
     },
     /// set every mtime in the tree to the sentinel
     Sentinel,
+    /// remove whatever is at the entry's path and plant the entry (environment fault)
+    Plant { entry: Entry },
     /// remember the current tree content
     Checkpoint,
     /// restore the tree content remembered by the last Checkpoint (new inodes), then Sentinel
